@@ -1020,7 +1020,7 @@ def c16(tier, seed):
 
 def c04(tier, seed):
     c15 = [o for o in PROPS['C15']['obligations'](tier, seed) if o.name in ('scrub.mark.region', 'scrub.classify.region', 'scrub.block_is_enabled', 'scrub.info_word')]
-    return [o for o in check_obs(tier) if o.name == 'check.blockcmp'] + sync_hash_obs() + c15 + [o for o in syncrd_obs() if o.name == 'scrub.data_reader'] + status_obs() + [o for o in openmode_obs() if o.name == 'handle.read'] + scrubpar_obs()
+    return [o for o in check_obs(tier) if o.name == 'check.blockcmp'] + sync_hash_obs() + c15 + [o for o in syncrd_obs() if o.name == 'scrub.data_reader'] + status_obs() + [o for o in openmode_obs() if o.name == 'handle.read'] + scrubpar_obs() + [o for o in writeback_obs() if o.name == 'check.repair_outcome.region']
 
 
 def c01(tier, seed):
